@@ -1,11 +1,12 @@
 (* C09 — syntax errors: never panic, never accept silently, blame the right
    token.  Statements only; rec_enabled = true is the generated parser as it
-   ships.  Termination of error recovery in general is NOT proved (see
-   DESIGN.md): it is exercised by bounded execution in the harness. *)
+   ships.  Termination is proved (C09_parse_terminates) for every table set
+   that passes the validator and the boolean termination condition term_ok
+   (Parse/TermCheck.v), which the harness evaluates on every emitted table. *)
 From Coq Require Import List ZArith Bool.
 From Lox Require Import Parse.Grammar Parse.Tables Parse.ParseRuntime Parse.Validator Parse.Actions
   Parse.Refine Parse.Recovery Parse.RecoveryFacts Parse.RecoverySound Parse.RecoveryBlame Parse.RecoveryAgree
-  Parse.RecoveryProgress.
+  Parse.RecoveryProgress Parse.TermCheck Parse.TermProofs.
 Import ListNotations.
 
 (* no panic, for every validated table set and every token sequence, lexer ERROR tokens included *)
@@ -103,3 +104,34 @@ Theorem C09_recoveries_make_progress :
       nrec tb eb discard fuel s0 <= 2 * length w + 2.
 Proof. exact recoveries_make_progress. Qed.
 Print Assumptions C09_recoveries_make_progress.
+
+(* EVERY RUN TERMINATES, with or without error recovery, on every token
+   sequence (lexer ERROR tokens included): for tables that pass the validator
+   and term_ok there is a fuel for which the model of parse() returns (accepts,
+   rejects, or - excluded by C09_parse_never_crashes - panics); by
+   C09_parse_fuel_monotone the answer is then the same for every larger fuel *)
+Theorem C09_parse_terminates :
+  forall g tb c nterm eb discard F,
+    validate g tb c nterm = true ->
+    term_ok tb (nstates c) F = true ->
+    forall rec w, tokens1 nterm w ->
+      exists fuel, parse tb eb rec discard fuel (zs w) <> Fuel.
+Proof. exact parse_terminates. Qed.
+Print Assumptions C09_parse_terminates.
+
+(* the bound behind it: between two shifts the parser makes fewer than
+   height * (F+1) reductions *)
+Theorem C09_reduce_chain_bounded :
+  forall g tb c nterm eb rec discard F,
+    validate g tb c nterm = true -> term_ok tb (nstates c) F = true ->
+    forall s n s', zpath g tb c (map i_state (stack s)) ->
+      reduce_run tb eb discard rec n s s' -> n < length (stack s) * (F + 1).
+Proof. exact reduce_chain_bounded. Qed.
+Print Assumptions C09_reduce_chain_bounded.
+
+(* term_ok is not vacuous: it holds of a real table set and fails on tables with a reduce cycle *)
+Theorem C09_term_ok_examples :
+  term_ok tb_small (nstates c_small) (term_fuel tb_small (nstates c_small)) = true /\
+  term_ok tb_cycle 2 1000 = false.
+Proof. split; vm_compute; reflexivity. Qed.
+Print Assumptions C09_term_ok_examples.
